@@ -150,3 +150,50 @@ func vh_C14_StartWithValDoNotationIO() {
 	}
 	vfReach("end")
 }
+
+// more requests outstanding at once than the operation channel buffers (5): six callers queue before the target starts
+func vh_C14_ManyCallers() {
+	const callers = 6
+	var target *CorDef[int]
+	cs := make([]*CorDef[int], callers)
+	var seen []int
+	got := make([]int, callers)
+	answered := make([]bool, callers)
+	target = CorNewGenerics[int](func() {
+		for k := 0; k < callers; k++ {
+			seen = append(seen, target.YieldRef(100+k))
+		}
+	})
+	for c := 0; c < callers; c++ {
+		c := c
+		cs[c] = CorNewGenerics[int](func() {
+			got[c] = cs[c].YieldFrom(target, c)
+			answered[c] = true
+		})
+	}
+	if !vfNoPanic("nopanic", func() {
+		for c := 0; c < callers; c++ {
+			cs[c].Start()
+		}
+		vfQuiesce() // five requests are buffered, the sixth caller waits for room
+		target.Start()
+		vfQuiesce()
+	}) {
+		return
+	}
+	vfAssert("every-request-taken-once", len(seen) == callers)
+	for c := 0; c < callers; c++ {
+		vfAssert("caller-answered", answered[c])
+		pos := -1
+		for k, x := range seen {
+			if x == c {
+				pos = k
+			}
+		}
+		vfAssert("request-not-lost", pos >= 0)
+		if answered[c] {
+			vfAssert("own-answer-routed-to-its-caller", got[c] == 100+pos)
+		}
+	}
+	vfReach("end")
+}
